@@ -19,7 +19,7 @@ def FLOORS(tier):
     q = tier == "quick"
     f = {"trees-checked": 1500 if q else 10 ** 5, "typed-leaf-gates": 200 if q else 5000, "arity>=4": 100 if q else 3000,
          "depth>=3": 200 if q else 5000, "model-leaf-snapshots": 300, "results-edited-afterwards": 1000,
-         "typed-first-operand:returned": 100, "typed-first-operand:refused": 100}
+         "typed-first-operand:returned": 100, "typed-operand-after-the-first": 150, "refused-call-earlier-in-the-process": 8, "typed-first-operand:refused": 100}
     for g in _sat.ALL:
         f["root:" + g] = 60 if q else 2000
     return f
@@ -42,6 +42,16 @@ def case(ctx, rng, idx):
         return typed_leaves(ctx, rng)
     if r0 < 0.27:
         return typed_overflow(ctx, rng)
+    if r0 < 0.33:
+        return typed_middle(ctx, rng)
+    if r0 < 0.335:
+        # a call the library has to refuse (two tuple labels that Python cannot order land in one key); whatever it raises,
+        # the gates built afterwards in this process are unaffected
+        try:
+            L.sat.AND(("a", 1), ("a", "b"))
+        except Exception:   # noqa
+            pass
+        ctx.cat("refused-call-earlier-in-the-process")
     labs = gen.labels(rng, rng.randint(1, 6))
     g = rng.choice(_sat.ALL)
     lib = getattr(L.sat, g)
@@ -141,6 +151,58 @@ def typed_overflow(ctx, rng):
     ctx.count("trees-checked")
     if ref.from_raw("bool", dict(r)) != exp:
         ctx.violation(g + ":wrong-truth-function:typed-first-operand", "got %r expected %r" % (dict(r), exp.show()), w)
+        return
+    if len(set(tab)) > 1:
+        ctx.nontrivial(desc)
+
+
+def typed_middle(ctx, rng):
+    """A restricted-type operand (QUBO / QUBOMatrix / PUBOMatrix) somewhere after the first one.  Intermediate results may
+    take that operand's type (OR / NOR do on the unchanged tree), so a KeyError refusal is acceptable; a model that is
+    returned must compute the gate."""
+    tn = rng.choice(["QUBO", "QUBOMatrix", "PUBOMatrix"])
+    T = getattr(L, tn)
+    labs = gen.labels(rng, rng.randint(3, 5), matrix=True)        # integer labels suit every type involved
+    g = rng.choice([x for x in _sat.ALL if x not in ("NOT", "BUFFER")])
+    ar = rng.randint(3, 6)
+    pos = rng.randint(1, ar - 1)
+    ops, fs, ds = [], [], []
+    for i in range(ar):
+        l = rng.choice(labs)
+        if i == pos:
+            ops.append(T({(l,): 1}))
+            fs.append(lambda x, l=l: x[l])
+            ds.append("%s{%r}" % (tn, l))
+        elif i == 0:
+            how = rng.choice(["label", "PUBO", "PCBO"])
+            ops.append(l if how == "label" else getattr(L, how)({(l,): 1}))
+            fs.append(lambda x, l=l: x[l])
+            ds.append(repr(l) if how == "label" else "%s{%r}" % (how, l))
+        else:
+            l2 = rng.choice(labs)
+            if rng.random() < 0.5 and l2 != l:
+                ops.append(L.sat.AND(l, l2))
+                fs.append(lambda x, l=l, l2=l2: x[l] * x[l2])
+                ds.append("AND(%r, %r)" % (l, l2))
+            else:
+                ops.append(l)
+                fs.append(lambda x, l=l: x[l])
+                ds.append(repr(l))
+    desc = "%s(%s)" % (g, ", ".join(ds))
+    w = {"tree": desc}
+    ok, r = ctx.call(g, getattr(L.sat, g), *ops, expect=(KeyError,), _w=w)
+    if not ok:
+        ctx.cat("typed-operand-after-the-first:refused")
+        return
+    ctx.cat("typed-operand-after-the-first")
+    tab = []
+    for i in range(1 << len(labs)):
+        x = ref.assignment(i, labs, False)
+        tab.append(_sat.gate_value(g, [f(x) for f in fs]))
+    exp = ref.moebius_bool(tab, labs)
+    ctx.count("trees-checked")
+    if ref.from_raw("bool", dict(r)) != exp:
+        ctx.violation(g + ":wrong-truth-function:typed-operand-after-the-first", "got %r expected %r" % (dict(r), exp.show()), w)
         return
     if len(set(tab)) > 1:
         ctx.nontrivial(desc)
